@@ -281,6 +281,10 @@ func RuleListen(r *Report, p *Program) {
 					if driverChans[e.Name] || len(driverChans) == 0 {
 						seq = append(seq, "close:"+e.Name)
 					}
+				case e.Kind == "send" && driverChans[e.Name]:
+					// one value sent on the stop channel signals its single receiver (the driver's stop goroutine)
+					// exactly as closing it does
+					seq = append(seq, "close:"+e.Name)
 				}
 			}
 			s := strings.Join(seq, " ")
@@ -610,7 +614,7 @@ func RuleListen(r *Report, p *Program) {
 			nRet := 0
 			for _, pa := range w.Walk(reader, symbolicArgs(reader), nil) {
 				for i, e := range pa.Events {
-					if e.Kind == "call" && strings.HasPrefix(e.Name, "dyn:") {
+					if e.Kind == "call" && strings.HasPrefix(e.Name, "dyn:") && len(e.Args) == 1 && e.Args[0] != nil && e.Args[0].Typ != nil && isByteSlice(e.Args[0].Typ) {
 						// handler call: its argument must be a slice of the buffer just read into, bounded by the read count
 						arg := e.Args[0].String()
 						okArg := false
@@ -691,8 +695,84 @@ func RuleImmutable(r *Report, p *Program) {
 	implPtr := types.NewPointer(a.Impl)
 	// IM1: SSA scan for stores through *client or map updates on maps loaded from it
 	n := 0
+	// construction may be spread over helpers: an internal constructor, functional options. A function takes part
+	// in construction when every use of it is a static call from the constructor or from such a function; a
+	// function literal made by such a function (an option) does too, unless it is stored somewhere (then it
+	// could run later).
+	ctorOnly := map[*ssa.Function]int{}
+	var isCtorOnly func(f *ssa.Function) bool
+	isCtorOnly = func(f *ssa.Function) bool {
+		if f == nil {
+			return false
+		}
+		if f == ctor {
+			return true
+		}
+		switch ctorOnly[f] {
+		case 1, 3:
+			return true
+		case 2:
+			return false
+		}
+		ctorOnly[f] = 3
+		res := false
+		if f.Parent() != nil {
+			res = isCtorOnly(f.Parent())
+			if res {
+				for _, mc := range closuresOf(f.Parent()) {
+					if mc.Fn == ssa.Value(f) && mc.Referrers() != nil {
+						for _, ref := range *mc.Referrers() {
+							if st, ok := ref.(*ssa.Store); ok && st.Val == ssa.Value(mc) {
+								if _, isLocal := rootOf(st.Addr).(*ssa.Alloc); !isLocal {
+									res = false
+								}
+							}
+							if _, isGo := ref.(*ssa.Go); isGo {
+								res = false
+							}
+						}
+					}
+				}
+			}
+		} else if f.Object() != nil && !f.Object().Exported() && pkgOf(f) == p.SSAPkg("uhppote") {
+			calls := 0
+			res = true
+			for _, caller := range p.AllFuncs {
+				for _, b := range caller.Blocks {
+					for _, in := range b.Instrs {
+						for _, op := range in.Operands(nil) {
+							if *op != ssa.Value(f) {
+								continue
+							}
+							ci, isCall := in.(ssa.CallInstruction)
+							if !isCall || ci.Common().Value != ssa.Value(f) {
+								res = false
+								continue
+							}
+							if _, isGo := in.(*ssa.Go); isGo {
+								res = false
+							}
+							calls++
+							if !isCtorOnly(caller) {
+								res = false
+							}
+						}
+					}
+				}
+			}
+			if calls == 0 {
+				res = false
+			}
+		}
+		if res {
+			ctorOnly[f] = 1
+		} else {
+			ctorOnly[f] = 2
+		}
+		return res
+	}
 	for _, fn := range p.AllFuncs {
-		if fn == ctor {
+		if fn == ctor || isCtorOnly(fn) {
 			continue
 		}
 		for _, b := range fn.Blocks {
